@@ -20,6 +20,7 @@ func init() {
 			"(R3, dirty closure) Scan marks every recheck path and each of its ancestors: the loop stores dirtyPaths[path]=true before testing path==\"\" and steps with fastpath.Dir; " +
 			"(R4) the whole-baseline shortcut returns the baseline only under baseline≠nil (after invalidation against root kind and probed behaviours) ∧ len(recheckPaths)==0; " +
 			"(R5) the endpoint resets recheckPaths only on the success edge of the accelerated scan it passed them to, and passes its own snapshot/recheckPaths/cache/ignoreCache to core.Scan; full scans pass nil baseline and nil recheck paths. " +
+			"(R2 additions) no child entry taken out of the baseline is passed to any function but the recursive scan and the carry-over walk of a reused subtree; the new digest cache is filled only by scanner.file (for the file just examined) and by that carry-over walk — never by copying the old cache wholesale; " +
 			"Not decided: equality of accelerated and cold snapshots over edit histories; completeness of watcher reports.",
 		Assumptions: []string{"every content change alters size, mtime, identity or type (the property's own premise)"},
 		Run:         runC13,
@@ -199,6 +200,26 @@ func runC13(c *eng.Ctx) {
 		}
 	}
 	c.Check("R2", "reused-file-needs-cache-entry", dir.Pos(), okMissing, "reusing a baseline file that has no cache entry fails the scan")
+	// who may fill the new digest cache: scanner.file for the file it has just
+	// examined, and the walk over a reused subtree for the files of that subtree —
+	// nothing copies the old cache wholesale (entries of paths that no longer
+	// exist would survive and vouch for a later file at the same path)
+	nFill := 0
+	for _, fn := range c.P.ModuleFuncs(corePkg) {
+		eng.EachInstr(fn, func(i ssa.Instruction) {
+			mu, ok := i.(*ssa.MapUpdate)
+			if !ok || !strings.HasSuffix(eng.TypeShort(mu.Map.Type()), "core.CacheEntry") {
+				return
+			}
+			nFill++
+			name := eng.FuncName(fn)
+			okSite := name == "(*synchronization/core.scanner).file" || (fn.Parent() != nil && eng.FuncName(fn.Parent()) == "(*synchronization/core.scanner).directory")
+			c.Check("R2", "new-cache-filled-per-file@"+name, mu.Pos(), okSite, "the new digest cache receives entries only for files scanned now or carried over with a reused subtree", name)
+		})
+	}
+	if nFill < 2 {
+		c.Problem("R2", "expected the two fill sites of the new digest cache, found %d", nFill)
+	}
 	// the reuse site above is the ONLY door through which baseline content
 	// enters the new snapshot: scanner.directory hands its baseline to no other
 	// function (a helper that swaps freshly scanned entries for baseline ones
@@ -211,6 +232,27 @@ func runC13(c *eng.Ctx) {
 					if a == ssa.Value(dir.Params[5]) {
 						leaks = append(leaks, eng.CalleeName(call))
 					}
+				}
+			}
+		}
+		// … nor a child entry taken out of it, except to the recursive scan of that
+		// child (a baseline FILE entry handed to scanner.file could be returned in
+		// place of a fresh one without the clean-path test)
+		for _, call := range eng.Calls(dir) {
+			if eng.Callee(call) == dir || eng.CalleeName(call) == "(*synchronization/core.Entry).walk" {
+				continue // the recursive scan; the walk over a REUSED subtree that carries its cache entries over
+			}
+			for _, a := range call.Common().Args {
+				v := eng.Unwrap(a)
+				isChild := false
+				if lk, ok := v.(*ssa.Lookup); ok && strings.Contains(eng.Render(lk.X), "p5") {
+					isChild = true
+				}
+				if phi, ok := v.(*ssa.Phi); ok && strings.HasSuffix(eng.TypeShort(phi.Type()), "core.Entry") && isChildBaseline(phi, map[ssa.Value]bool{}) {
+					isChild = true
+				}
+				if isChild {
+					leaks = append(leaks, eng.CalleeName(call)+" ← child of the baseline")
 				}
 			}
 		}
